@@ -5,6 +5,8 @@ the outcome in meta.json. Usage: run_seeds.py [seed-dir-name ...]  (default: all
 import json, os, subprocess, sys, re, glob
 REPO=os.environ.get('SEED_REPO','/repo')
 SEED_DIR=os.environ.get('SEED_DIR','/verif/seeded')
+# SEED_VERIF: the verifier to use (default /verif; a snapshot copy keeps a long run independent of work going on in /verif)
+VERIF=os.environ.get('SEED_VERIF','/verif')
 ENV=dict(os.environ, GOFLAGS='-mod=mod', GOPROXY='off', VERIF_REPO=REPO)
 def sh(cmd, cwd=REPO, timeout=1800):
     p=subprocess.run(cmd, shell=True, cwd=cwd, env=ENV, capture_output=True, text=True, timeout=timeout)
@@ -42,11 +44,11 @@ for n in names:
         brc,bout=sh("go build . ./markdown ./cmd/gtree && go build -tags tinywasm .")
         rc1,out1=run_demo(meta,d)
         bad=stable_ok()
-        crc,cout=sh("./check %s quick"%prop, cwd='/verif')
+        crc,cout=sh("%s/bin/gvc check -prop %s -tier quick -repo %s -verif %s"%(VERIF,prop,REPO,VERIF), cwd=VERIF)
         viol=[l for l in cout.split('\n') if l.startswith('VIOLATION')]
         also={}
         for q in meta.get('also_check',[]):
-            qrc,qout=sh("./check %s quick"%q, cwd='/verif')
+            qrc,qout=sh("%s/bin/gvc check -prop %s -tier quick -repo %s -verif %s"%(VERIF,q,REPO,VERIF), cwd=VERIF)
             also[q]=sorted(set(re.search(r'obligation=(\S+)',l).group(1) for l in qout.split('\n') if l.startswith('VIOLATION')))
         if also: meta['also_violated']=also
     finally:
